@@ -39,6 +39,7 @@ type Config struct {
 	PCTDepth      int
 	StarveName    string  // substring of the goroutine name to starve (StratStarve); "" = seed picks an ordinal
 	TimerRaceP    float64 // probability that a pending timer fires although goroutines are runnable (<0: seed picks)
+	NoTimerRace   bool    // timers fire only when nothing is runnable (for code whose deadlines must not be hit by scheduling alone)
 	Paranoid      bool    // check goroutine identity at every primitive (slow)
 	TickPerStep   time.Duration
 	StmtYields    bool // statement-boundary yields (dsim.Y) are live
@@ -265,7 +266,9 @@ func (s *Sim) initStrategy() {
 	if s.switchP == 0 {
 		s.switchP = 0.1
 	}
-	if c.TimerRaceP < 0 || (!c.ForceStrategy && c.TimerRaceP == 0) {
+	if c.NoTimerRace {
+		s.timerP = 0
+	} else if c.TimerRaceP < 0 || (!c.ForceStrategy && c.TimerRaceP == 0) {
 		s.timerP = []float64{0, 0, 0.005, 0.05}[s.srng.Intn(4)]
 	} else {
 		s.timerP = c.TimerRaceP
